@@ -246,6 +246,9 @@ class Enforcer:
         self.stmt = stmt
         self.cfg = cfg
         gs = [g for g in cfg.guards(stmt) if isinstance(g, Branch) and isinstance(g.stmt, (ast.If, ast.While))]
+        # a dominating test whose other arm never reaches the normal exit (an earlier ``if bad: raise``)
+        # is no condition of this check: every execution that is not refused there comes this way
+        gs = [g for g in gs if not _other_arm_refuses(cfg, g)]
         parts = [_formula(g.stmt.test, g.polarity) for g in gs]
         if isinstance(stmt, ast.Assert):
             parts.append(_formula(stmt.test, False))
@@ -262,6 +265,17 @@ class Enforcer:
             if self.cfg.dominates(i, top):
                 top = i
         return top
+
+
+def _other_arm_refuses(cfg, g) -> bool:
+    """``g`` is one outcome of an ``if``; the other outcome can reach neither the normal exit of the
+    function nor (through a loop) the test itself again: it always ends in a raise."""
+    if not isinstance(g.stmt, ast.If):
+        return False
+    other = [n for n in cfg.succ.get(g.stmt, ()) if isinstance(n, Branch) and n.stmt is g.stmt and n.polarity != g.polarity]
+    if len(other) != 1:
+        return False
+    return not cfg.reaches(other[0], cfg.exit) and not cfg.reaches(other[0], g.stmt)
 
 
 def _differs(e: ast.AST, pol: bool) -> Optional[Tuple[ast.AST, ast.AST]]:
@@ -1263,6 +1277,14 @@ def _r07d(chk, repo) -> None:
                         continue
                     if isinstance(v, ast.Name) and fresh_at(v.id, d.stmt, depth + 1):
                         continue  # a plain alias of something created in this iteration
+                    if isinstance(v, (ast.Attribute, ast.Subscript)):
+                        # a part of another object fetched into a local (``info = t.table[k]``): it is
+                        # per-iteration state exactly when the object it is reached from is
+                        r0 = v
+                        while isinstance(r0, (ast.Attribute, ast.Subscript)):
+                            r0 = r0.value
+                        if isinstance(r0, ast.Name) and fresh_at(r0.id, d.stmt, depth + 1):
+                            continue
                     return False
                 return True
 
@@ -1333,7 +1355,134 @@ _FINAL = (
     "            if tfs.templated_slice.stop != len(templated_str):\n"
 )
 
+_RAW_TOTAL = (
+    "        assert pos == len(self.source_str), (\n"
+    "            \"TemplatedFile. Consistency fail on total source length\"\n"
+    "            f\": {pos} != {len(self.source_str)}\"\n"
+    "        )\n"
+)
+_FINAL_FULL = (
+    "        if self.sliced_file and templated_str is not None and tfs:\n"
+    "            if tfs.templated_slice.stop != len(templated_str):\n"
+    "                raise SQLFluffSkipFile(  # pragma: no cover\n"
+    "                    \"Length of templated file mismatch with final slice: \"\n"
+    "                    f\"{len(templated_str)} != {tfs.templated_slice.stop}.\"\n"
+    "                )\n"
+)
+
 VARIANTS: List[Variant] = [
+    # behaviour-preserving refactors: must stay quiet
+    Variant(
+        "quiet-raw-lengths-through-locals-and-mirrored", BASE,
+        "        for rfs in self.raw_sliced:\n" + _RAW_ASSERT + "            pos += len(rfs.raw)\n" + _RAW_TOTAL,
+        "        for rfs in self.raw_sliced:\n            assert pos == rfs.source_idx, f\"running source length: {pos} != {rfs.source_idx}\"\n            raw_len = len(rfs.raw)\n            pos += raw_len\n"
+        "        source_len = len(self.source_str)\n        if pos != source_len:\n            raise AssertionError(f\"total source length: {pos} != {source_len}\")\n",
+        "QUIET", None, "comparison mirrored, lengths through locals, the total check as if/raise",
+    ),
+    Variant(
+        "quiet-rendered-first-slice-branch-first", BASE,
+        _RENDERED_LOOP,
+        "        for tfs in self.sliced_file:\n"
+        "            if previous_slice is None:\n"
+        "                if tfs.templated_slice.start != 0:\n"
+        "                    raise SQLFluffSkipFile(f\"First Templated slice not started at index 0 (found slice {tfs.templated_slice})\")\n"
+        "            elif tfs.templated_slice.start != previous_slice.templated_slice.stop:\n"
+        "                raise SQLFluffSkipFile(f\"Templated slices found to be non-contiguous at {tfs.templated_slice}\")\n"
+        "            previous_slice = tfs\n",
+        "QUIET", None, "arms swapped, 'is None' test, nested if merged into elif",
+    ),
+    Variant(
+        "quiet-rendered-checks-as-conjunctions", BASE,
+        _RENDERED_LOOP,
+        "        for tfs in self.sliced_file:\n"
+        "            if previous_slice is not None and tfs.templated_slice.start != previous_slice.templated_slice.stop:\n"
+        "                raise SQLFluffSkipFile(f\"Templated slices found to be non-contiguous at {tfs.templated_slice}\")\n"
+        "            if previous_slice is None and tfs.templated_slice.start != 0:\n"
+        "                raise SQLFluffSkipFile(f\"First Templated slice not started at index 0 (found slice {tfs.templated_slice})\")\n"
+        "            previous_slice = tfs\n",
+        "QUIET", None, "nested ifs merged into two conjunctions",
+    ),
+    Variant(
+        "quiet-final-check-one-conjunction", BASE,
+        _FINAL_FULL,
+        "        if (\n            self.sliced_file\n            and templated_str is not None\n            and tfs\n            and tfs.templated_slice.stop != len(templated_str)\n        ):\n"
+        "            raise SQLFluffSkipFile(  # pragma: no cover\n"
+        "                \"Length of templated file mismatch with final slice: \"\n"
+        "                f\"{len(templated_str)} != {tfs.templated_slice.stop}.\"\n"
+        "            )\n",
+        "QUIET", None, "nested ifs merged into one conjunction",
+    ),
+    Variant(
+        "quiet-final-check-early-return", BASE,
+        _FINAL_FULL,
+        "        if not self.sliced_file or templated_str is None or not tfs:\n            return\n"
+        "        if tfs.templated_slice.stop != len(templated_str):\n"
+        "            raise SQLFluffSkipFile(  # pragma: no cover\n"
+        "                \"Length of templated file mismatch with final slice: \"\n"
+        "                f\"{len(templated_str)} != {tfs.templated_slice.stop}.\"\n"
+        "            )\n",
+        "QUIET", None, "the exemptions leave early (the check is the last thing the constructor does)",
+    ),
+    Variant(
+        "quiet-rendered-text-store-as-statement", BASE,
+        "        self.templated_str = source_str if templated_str is None else templated_str\n",
+        "        if templated_str is None:\n            self.templated_str = source_str\n        else:\n            self.templated_str = templated_str\n",
+        "QUIET", None, "conditional expression spelled as if/else",
+    ),
+    Variant(
+        "quiet-variant-info-through-local", JINJA,
+        "                    tracer_trace.raw_slice_info[\n                        raw_file_slice\n                    ].alternate_code = new_source\n",
+        "                    slice_info = tracer_trace.raw_slice_info[raw_file_slice]\n                    slice_info.alternate_code = new_source\n",
+        "QUIET", None, "the record written to is fetched into a local first (it belongs to the per-variant copy)",
+    ),
+    Variant(
+        "quiet-variant-state-constructor-calls", JINJA,
+        "            override_raw_slices = []\n",
+        "            override_raw_slices = list()\n",
+        "QUIET", None, "[] spelled list()",
+    ),
+    Variant(
+        "quiet-python-slicing-result-indexed", PY,
+        "        raw_sliced, sliced_file, new_str = self.slice_file(\n            in_str,\n            render_func=render_func,\n            config=config,\n        )\n",
+        "        sliced = self.slice_file(\n            in_str,\n            render_func=render_func,\n            config=config,\n        )\n        raw_sliced = sliced[0]\n        sliced_file = sliced[1]\n        new_str = sliced[2]\n",
+        "QUIET", None, "result triple indexed instead of unpacked",
+    ),
+    Variant(
+        "quiet-python-construction-positional", PY,
+        "            TemplatedFile(\n                source_str=in_str,\n                templated_str=new_str,\n                fname=fname,\n                sliced_file=sliced_file,\n                raw_sliced=raw_sliced,\n            ),\n            [],\n",
+        "            TemplatedFile(in_str, fname, new_str, sliced_file, raw_sliced),\n            [],\n",
+        "QUIET", None, "arguments passed by position",
+    ),
+    Variant(
+        "quiet-variant-consumer-unpacks-in-body", JINJA,
+        "        for raw_sliced, sliced_file, templated_str in self._handle_unreached_code(\n            in_str, render_func, uncovered_literal_idxs\n        ):\n            yield (\n",
+        "        for variant in self._handle_unreached_code(\n            in_str, render_func, uncovered_literal_idxs\n        ):\n            raw_sliced, sliced_file, templated_str = variant\n            yield (\n",
+        "QUIET", None, "loop variable kept whole and unpacked in the body",
+    ),
+    Variant(
+        "quiet-variant-generator-yields-through-locals", JINJA,
+        "            yield (\n                tracer_copy.raw_sliced,\n                adjusted_slices,\n                trace.templated_str,\n            )\n",
+        "            variant_raw = tracer_copy.raw_sliced\n            variant_text = trace.templated_str\n            yield variant_raw, adjusted_slices, variant_text\n",
+        "QUIET", None, "yielded components through locals",
+    ),
+    # breaking twins in the spellings the QUIET sweep taught the rules to read
+    Variant(
+        "variant-info-through-local-of-the-shared-tracer", JINJA,
+        "                    tracer_trace.raw_slice_info[\n                        raw_file_slice\n                    ].alternate_code = new_source\n",
+        "                    slice_info = tracer_copy.raw_slice_info[raw_file_slice]\n                    slice_info.alternate_code = new_source\n",
+        "R07d", "_handle_unreached_code", "the record fetched into a local belongs to the tracer shared by all variants",
+    ),
+    Variant(
+        "rendered-conjunction-check-needs-a-flag", BASE,
+        _RENDERED_LOOP,
+        "        for tfs in self.sliced_file:\n"
+        "            if previous_slice is not None and tfs.templated_slice.start != previous_slice.templated_slice.stop and fname:\n"
+        "                raise SQLFluffSkipFile(f\"Templated slices found to be non-contiguous at {tfs.templated_slice}\")\n"
+        "            if previous_slice is None and tfs.templated_slice.start != 0:\n"
+        "                raise SQLFluffSkipFile(f\"First Templated slice not started at index 0 (found slice {tfs.templated_slice})\")\n"
+        "            previous_slice = tfs\n",
+        "R07a", "__init__", "conjunction spelling with an extra condition on the contiguity check",
+    ),
     Variant(
         "variant-overrides-on-one-shared-copy", JINJA,
         "            tracer_trace = copy.deepcopy(tracer_copy)\n",
